@@ -298,10 +298,11 @@ def check_exact(c, repo):
     f = repo.func('spawnbase:SpawnBase.expect_exact')
     g = f.cfg
     pl = f.params[1]
-    h = f.nested.get('prepare_pattern', [None])[0]
-    c.need(h is not None, 'expect_exact: prepare_pattern helper not found')
+    mh = mapped_helper(repo, f)
+    c.need(mh is not None, 'expect_exact: prepare_pattern helper not found')
+    h, pidx, hcomp = mh
     hg = h.cfg
-    pv = h.params[0]
+    pv = h.params[pidx]
     # every return of the helper, with the kinds of pattern it is taken for (path conditions, whatever the chain of tests looks like)
     seen = set()
     for r in returns(h):
@@ -349,7 +350,7 @@ def check_exact(c, repo):
         if n.kind == 'stmt' and isinstance(n.ast, (ast.Assign, ast.AugAssign)) and pl in assigned_names(n.ast):
             v = n.ast.value
             good = (n in w) or (isinstance(v, ast.Call) and dotted(v.func) in ('iter', 'list', 'tuple') and len(v.args) == 1 and is_name(v.args[0], pl)) \
-                or (isinstance(v, ast.ListComp) and any(callee_last(k) == 'prepare_pattern' for k in calls_in(v))
+                or (isinstance(v, ast.ListComp) and v is hcomp
                                 and is_name(v.generators[0].iter, pl) and not v.generators[0].ifs)
             c.check(good, f, n.ast, 'the pattern argument is only ever wrapped ([p]) or mapped through the validating helper, element by element; '
                     'it is never replaced by something else before validation', witness=norm(n.ast), kind='ast', tag='exact-rebind:' + norm(n.ast)[:30])
@@ -439,9 +440,12 @@ def check_order(c, repo):
         ex = cfg_nodes_with_call(f, lambda k: callee_last(k) in ('Expecter', 'expect_list'))
         ok = all(g.path(e[0], r, skip_labels=('exc',)) is None for r in rs for e in ex)
         c.check(ok and rs, f, rs[0].ast if rs else None, 'unknown keyword arguments are rejected before anything is consumed', tag='kw-first:' + f.name)
+    mh = mapped_helper(repo, repo.func('spawnbase:SpawnBase.expect_exact'))
+    if mh is None:
+        raise AnalysisError('anchor vanished: the helper expect_exact maps over its pattern list was not found')
     for q in ('spawnbase:SpawnBase.compile_pattern_list', 'spawnbase:SpawnBase._coerce_expect_string', 'spawnbase:SpawnBase._coerce_expect_re',
-              'spawnbase:SpawnBase._pattern_type_err', 'spawnbase:SpawnBase.expect_exact.prepare_pattern'):
-        f = repo.func(q)
+              'spawnbase:SpawnBase._pattern_type_err', mh[0]):
+        f = repo.func(q) if isinstance(q, str) else q
         bad = [k for k in calls_in(f.node) if callee_last(k) in ('read_nonblocking', 'expect', 'expect_list', 'expect_loop', 'new_data', 'existing_data', 'read', 'readline')]
         c.check(not bad, f, bad[0] if bad else None, 'the validator never touches the child\'s output', kind='ast', tag='pure:' + f.name)
 
